@@ -461,7 +461,8 @@ func ToLin(v Value) (Lin, bool) {
 					return l, true
 				}
 			}
-			return Lin{}, false
+			// a general sum is an atomic quantity for the zone
+			return Lin{Var: x.String(), IsInt: isInt}, true
 		}
 		if x.Op == "-" && len(x.Args) == 1 { // float negation produced by UnOp on floats
 			return Lin{}, false
